@@ -196,13 +196,13 @@ func (r Rules) Sort() Rules {
 	slices.SortFunc(r, func(a, b Rule) int {
 		kindOfA := a.Kind()
 		kindOfB := b.Kind()
+		if kindOfA == INCLUDE && a.(*Include).IfExists {
+			kindOfA = "include_if_exists"
+		}
+		if kindOfB == INCLUDE && b.(*Include).IfExists {
+			kindOfB = "include_if_exists"
+		}
 		if kindOfA != kindOfB {
-			if kindOfA == INCLUDE && a.(*Include).IfExists {
-				kindOfA = "include_if_exists"
-			}
-			if kindOfB == INCLUDE && b.(*Include).IfExists {
-				kindOfB = "include_if_exists"
-			}
 			return ruleWeights[kindOfA] - ruleWeights[kindOfB]
 		}
 		return a.Compare(b)
